@@ -76,9 +76,65 @@ func postmasterGroup(t *testing.T, r *rep.Reporter) {
 			}
 			r.Count("postmaster_spellings_checked", 1)
 		}
-		r.Sample(map[string]any{"group": "domain-less postmaster", "spellings": spell})
+		// Spellings that match "postmaster" only under Unicode simple case FOLDING: U+017F (long s) folds to
+		// "s"; it is a lower-case letter, so lower-casing leaves it alone. (The Kelvin sign U+212A folds to
+		// "k", which "postmaster" does not contain; it is covered as a spelling of k in the batches.) Whether
+		// such a string is an address at all is maddy's decision, not the statement's: a spelling that
+		// address.Valid rejects is skipped. A spelling that Valid accepts without a domain IS, by Split's own
+		// contract, the one address that has no domain - a letter-case variant of "postmaster" - and must
+		// get its key and compare equal to it.
+		for _, s := range postmasterFoldSpellings() {
+			r.Count("postmaster_fold_spellings_seen", 1)
+			mb, dom, err := address.Split(s)
+			if !address.Valid(s) || err != nil || dom != "" {
+				r.Count("postmaster_fold_spellings_not_domainless_valid", 1)
+				continue
+			}
+			if mb != s {
+				c.Violation("law/split-join/domainless-postmaster", fmt.Sprintf("Split(%q) = %q, %q: does not join back to the input", s, mb, dom), map[string]any{"addr": s})
+			}
+			if cd, err := address.CleanDomain(s); err != nil || cd != s {
+				c.Violation("law/cleandomain-class/domainless-postmaster", fmt.Sprintf("CleanDomain(%q) = %q, %v: the local part must be left alone", s, cd, err), map[string]any{"addr": s})
+			}
+			k, err := address.ForLookup(s)
+			if err != nil {
+				continue // refused: nothing to compare
+			}
+			if k2, err2 := address.ForLookup(k); k2 != k || err2 != nil {
+				c.Violation("law/forlookup-idempotent/domainless-postmaster", fmt.Sprintf("ForLookup(%q) = %q, again %q (err %v)", s, k, k2, err2), map[string]any{"addr": s})
+			}
+			if k != key0 {
+				c.Violation("law/one-key-per-class/domainless-postmaster-case-folded", fmt.Sprintf("Valid(%q) is true and Split reports it as the domain-less postmaster address, but ForLookup(%q) = %q while ForLookup(%q) = %q", s, s, k, spell[0], key0), map[string]any{"addr": s, "key": k, "postmaster_key": key0})
+			}
+			if !address.Equal(s, spell[0]) || !address.Equal(spell[0], s) {
+				c.Violation("law/equal-within-class/domainless-postmaster-case-folded", fmt.Sprintf("Valid(%q) is true and Split reports it as the domain-less postmaster address, but Equal(%q, %q) is false", s, s, spell[0]), map[string]any{"addr": s})
+			}
+		}
+		r.Sample(map[string]any{"group": "domain-less postmaster", "spellings": spell, "case_folded_spellings": postmasterFoldSpellings()})
 		c.Done("postmaster", true)
 	})
+}
+
+// postmasterFoldSpellings: every way to write one or both "s" of postmaster as U+017F, in lower, upper and
+// mixed case of the other letters.
+func postmasterFoldSpellings() []string {
+	var out []string
+	for _, base := range []string{"postmaster", "POSTMASTER", "PostMaster"} {
+		for mask := 1; mask < 4; mask++ {
+			rs := []rune(base)
+			n := 0
+			for i, c := range rs {
+				if c == 's' || c == 'S' {
+					if mask&(1<<n) != 0 {
+						rs[i] = 0x17f
+					}
+					n++
+				}
+			}
+			out = append(out, string(rs))
+		}
+	}
+	return out
 }
 
 type concRef struct {
